@@ -967,6 +967,10 @@ func (in *instr) selectStmt(x *ast.SelectStmt) []ast.Stmt {
 		})
 		idx++
 	}
+	// a select whose clauses all return is a terminating statement; so is a switch, if it has a default clause
+	sw.Body.List = append(sw.Body.List, &ast.CaseClause{
+		Body: []ast.Stmt{&ast.ExprStmt{X: call(ast.NewIdent("panic"), strLit("simrt: select chose no clause"))}},
+	})
 	args := append([]ast.Expr{strLit(st), boolLit(hasDefault)}, ks...)
 	sw.Tag = call(sel("simrt", "Select"), args...)
 	return append(pre, sw)
